@@ -278,6 +278,45 @@ func addAtomic(c *Ctx, rule string) {
 		}
 		return ""
 	}
+	// Add is a pure dispatcher: an error of its own, made at a deeper level of the recursion, would be
+	// returned after slowAdd has already linked the new chain one level up
+	if add := P.Method("ctree", "Tree", "Add"); add == nil {
+		c.Unresolved(rule, "ctree.(*Tree).Add")
+	} else {
+		c.Analysed(fnName(add))
+		n := 0
+		bad := ""
+		instrs(add, func(in ssa.Instruction) {
+			ret, ok := in.(*ssa.Return)
+			if !ok || len(ret.Results) != 1 {
+				return
+			}
+			n++
+			var chk func(v ssa.Value, d int) bool
+			chk = func(v ssa.Value, d int) bool {
+				if d > 4 {
+					return false
+				}
+				switch x := v.(type) {
+				case *ssa.Call:
+					g := staticCallee(&x.Call)
+					return g == ta || g == ia
+				case *ssa.Phi:
+					for _, e := range x.Edges {
+						if !chk(e, d+1) {
+							return false
+						}
+					}
+					return len(x.Edges) > 0
+				}
+				return false
+			}
+			if !chk(ret.Results[0], 0) {
+				bad = "returns " + Expr(ret.Results[0]) + " at " + P.Pos(in.Pos())
+			}
+		})
+		c.Check(bad == "" && n > 0, rule, fnName(add), "Add only dispatches to terminalAdd / intermediateAdd (it makes no error of its own)", P.Pos(add.Pos()), bad)
+	}
 	for _, f := range []*ssa.Function{ta, ia, sa} {
 		c.Analysed(fnName(f))
 		for _, kind := range []string{"branch", "leaf", "empty"} {
@@ -325,6 +364,130 @@ func addAtomic(c *Ctx, rule string) {
 				c.Check(ok, rule, fnName(f), "node is "+kind, P.Pos(f.Pos()), fmt.Sprintf("%s; returns %s, wrote=%v; path: %s", why, rc, wrote, p.String()))
 			}
 			c.Floor(fmt.Sprintf("%s/%s(%s)", rule, fnName(f), kind), n, 1)
+		}
+	}
+}
+
+// ctreeExposure: the guarded content of a node leaves package ctree only through the guarded
+// accessors (shared by C09 - lookups report stored leaves only - and C10 - the children map is
+// never handed out, so it cannot be read or ranged without the node's lock).
+func ctreeExposure(c *Ctx, rule string) {
+	P := c.P
+	fLB := P.Field("ctree", "Tree", "leafBranch")
+	tv := P.Method("ctree", "Tree", "Value")
+	lv := P.Method("ctree", "Leaf", "Value")
+	lu := P.Method("ctree", "Leaf", "Update")
+	if fLB == nil || tv == nil || lv == nil || lu == nil {
+		c.Unresolved(rule, "ctree.Tree.leafBranch / (*Tree).Value / (*Leaf).Value / (*Leaf).Update")
+		return
+	}
+	c.Rule(rule, "package ctree (non-test): a value read from leafBranch is returned only by (*Tree).Value - which returns nil for a branch node on every path - and by the leaf-handle accessor (*Leaf).Value; no other function returns it or the children map asserted from it; and the package never calls its own handle methods (*Leaf).Value / (*Leaf).Update, which skip the branch test (a lookup must go through (*Tree).Value, an add must test and store under one write lock)")
+	derives := func(v ssa.Value) bool {
+		seen := map[ssa.Value]bool{}
+		var w func(v ssa.Value, d int) bool
+		w = func(v ssa.Value, d int) bool {
+			if d > 10 || seen[v] {
+				return false
+			}
+			seen[v] = true
+			switch x := v.(type) {
+			case *ssa.UnOp:
+				if loadOfField(x, fLB) {
+					return true
+				}
+				// a result spilled into a local cell because of a defer
+				if al, ok := x.X.(*ssa.Alloc); ok {
+					for _, sv := range storedValues(x) {
+						_ = al
+						if w(sv, d+1) {
+							return true
+						}
+					}
+				}
+				return false
+			case *ssa.TypeAssert:
+				return w(x.X, d+1)
+			case *ssa.Extract:
+				if _, isTA := x.Tuple.(*ssa.TypeAssert); isTA && x.Index != 0 {
+					return false // the ok flag is not content
+				}
+				return w(x.Tuple, d+1)
+			case *ssa.MakeInterface:
+				return w(x.X, d+1)
+			case *ssa.ChangeType:
+				return w(x.X, d+1)
+			case *ssa.Phi:
+				for _, e := range x.Edges {
+					if w(e, d+1) {
+						return true
+					}
+				}
+			}
+			return false
+		}
+		return w(v, 0)
+	}
+	nRet := 0
+	for _, f := range P.PkgFuncs("ctree") {
+		if P.InTestFile(f) {
+			continue
+		}
+		instrs(f, func(in ssa.Instruction) {
+			switch x := in.(type) {
+			case *ssa.Return:
+				for _, rv := range x.Results {
+					if !derives(rv) {
+						continue
+					}
+					nRet++
+					c.Check(f == tv || f == lv, rule, fnName(f), "returns the node's content "+Expr(rv), P.Pos(in.Pos()), "only (*Tree).Value (guarded) and (*Leaf).Value may hand out what leafBranch holds")
+				}
+			case ssa.CallInstruction:
+				if g := staticCallee(x.Common()); g == lv || g == lu {
+					c.Bad(rule, fnName(f), "call of the handle method "+fnName(g)+" inside package ctree", P.Pos(in.Pos()), "handle methods skip the branch test")
+				}
+			}
+		})
+	}
+	c.Floor(rule+"/content-returns", nRet, 2)
+	// (*Tree).Value returns nil for a branch
+	{
+		cls := func(e *PPA, st *State, rv RV) string {
+			r := e.Resolve(st, rv)
+			if ex, ok := r.V.(*ssa.Extract); ok && ex.Index == 1 {
+				if t, ok := ex.Tuple.(*ssa.TypeAssert); ok && isNamed(t.AssertedType, "ctree", "branch") {
+					return "ISBRANCH"
+				}
+			}
+			if b, ok := r.V.(*ssa.BinOp); ok && (b.Op == token.EQL || b.Op == token.NEQ) && isNilConst(b.Y) {
+				if _, isP := e.Resolve(st, RV{r.F, b.X}).V.(*ssa.Parameter); isP {
+					if b.Op == token.EQL {
+						return "NILRECV"
+					}
+					return "!NILRECV"
+				}
+			}
+			return ""
+		}
+		for _, isB := range []bool{true, false} {
+			at := &Atoms{Class: cls, Bool: map[string]bool{"ISBRANCH": isB, "NILRECV": false, "!NILRECV": true}}
+			e := &PPA{Cond: at.Cond, Inline: func(fr *Frame, call ssa.CallInstruction, callee *ssa.Function) bool {
+				return callee.Pkg == tv.Pkg && (callee.Name() == "isBranch" || callee.Name() == "IsBranch")
+			}}
+			e.Run(tv)
+			c.Paths += len(e.Paths)
+			c.Scen++
+			n := 0
+			for i := range e.Paths {
+				p := &e.Paths[i]
+				if p.End != "return" || len(p.Rets) != 1 {
+					continue
+				}
+				n++
+				isNil := isNilConst(p.Rets[0].V)
+				c.Check(isNil == isB, rule, fnName(tv), fmt.Sprintf("node is a branch=%v", isB), P.Pos(tv.Pos()), "returns "+Expr(p.Rets[0].V))
+			}
+			c.Floor(fmt.Sprintf("%s/Value(branch=%v)", rule, isB), n, 1)
 		}
 	}
 }
